@@ -84,7 +84,8 @@ def fixed_tree() -> bool:
 
 
 def run_real(case: dict) -> list[str]:
-    lines = c13_run.run_program(case["prog"], case.get("ext", []), case.get("ext_last", False))
+    lines = c13_run.run_program(case["prog"], case.get("ext", []), case.get("ext_last", False),
+                                futs=case.get("futs"))
     if c13_oracle.completed_under_cancelled_scope(case["prog"], lines):
         lines.append("bad")      # mirrors the model's ghost monitor (C13_interrupt says it never fires)
     _real_hash[core.case_digest(case)] = hash(tuple(lines))
@@ -101,8 +102,8 @@ def model_post(case: dict, lines: list[str]) -> list[str]:
 
 
 def model_input(case: dict, real: list[str]):
-    if any(ln.split()[0] in ("group", "child") for ln in case["prog"]):
-        return None  # task groups: oracle only
+    if any(ln.split()[0] in ("group", "child", "fwait", "fail", "join", "trye") for ln in case["prog"]):
+        return None  # task groups, operations that fail (harness futures, join of a failing child): oracle only
     head = f"cs {int(fixed_tree())} {int(case.get('ext_last', False))} 3000 " + " ".join(str(t) for t in case.get("ext", []))
     return head.strip(), list(case["prog"])
 
